@@ -371,3 +371,9 @@ theorem ax_bigprod_neg (f : ℕ → ℝ) (n : ℕ) :
   rcases Nat.even_or_odd n with h | h
   · rw [h.neg_one_pow, if_pos (Nat.even_iff.mp h)]
   · rw [h.neg_one_pow, if_neg (by rw [Nat.odd_iff] at h; omega)]
+
+/-! ### G-mode: a list with one entry replaced (step driver) -/
+theorem ax_bigprod_split_entry (f : ℕ → ℝ) (j m : ℕ) (hj : j ≤ m) :
+    ∏ i ∈ Finset.range (m + 1), f i = f j * ∏ u ∈ Finset.range m, (if u < j then f u else f (u + 1)) := by
+  rw [ax_bigprod_without f j m hj]
+  exact (Finset.mul_prod_erase (Finset.range (m + 1)) f (Finset.mem_range.mpr (by omega))).symm
